@@ -153,12 +153,214 @@ def check_other(fmt, s, d):
     if (sm[1], sm[2]) != (0, len(modgen.SAMPLE)) or not sm[3] & 2: return "sample 0 loop %d..%d flags %d" % (sm[1], sm[2], sm[3])
     return None
 
+# ---------------------------------------------------------------------------------------------------------------------------
+# (d) packed pattern data of XM / S3M / IT: the extracted decoders of Model/PatCodecs.v (transcribed from load_xm_pattern, the S3M
+#     pattern loop and load_it_pattern with their effect / volume-column translations) against what libxmp loaded, all seven event
+#     fields of every cell, on (1) streams written by the extracted writers from random cells (the proved round trip's domain),
+#     (2) mutated writer output, (3) random bytes.
+
+def _rb(rng, classes):
+    c = rng.choice(classes)
+    return rng.randrange(c[0], c[1] + 1)
+
+NOTE_XM = ((0, 0), (1, 96), (1, 96), (97, 97), (98, 127), (128, 255))
+VOL_XM = ((0, 0), (1, 15), (16, 80), (16, 80), (81, 95), (96, 255), (240, 255))
+FXT_XM = ((0, 0), (1, 17), (1, 17), (14, 14), (3, 5), (9, 9), (18, 36), (33, 33), (37, 255))
+FXP_ANY = ((0, 0), (1, 255), (0x50, 0x5f), (0x90, 0x9f), (0xd0, 0xdf), (0x43, 0x43), (0x73, 0x73))
+
+def gen_xm_case(rng):
+    chn = rng.choice((1, 2, 4, 5, 8, 32)); rows = rng.choice((1, 2, 7, 16, 64)) if chn < 32 else rng.choice((1, 4, 16))
+    toks = []
+    for _ in range(rows * chn):
+        if rng.random() < 0.5: toks.append("-2:0,0,0,0,0" if rng.random() < 0.8 else "%d:0,0,0,0,0" % rng.choice((0, 31, 5, 24))); continue
+        n, i, v, t, p = _rb(rng, NOTE_XM), rng.choice((0, 1, 1, 2, 128, 255)), _rb(rng, VOL_XM), _rb(rng, FXT_XM), _rb(rng, FXP_ANY)
+        if rng.random() < 0.3: n = 0
+        if rng.random() < 0.3: v = 0
+        if rng.random() < 0.3: t = p = 0
+        need = (1 if n else 0) | (2 if i else 0) | (4 if v else 0) | (8 if t else 0) | (16 if p else 0)
+        k = rng.random()
+        mode = -1 if (k < 0.25 and n < 128) else -2 if k < 0.6 else (need | rng.randrange(32))
+        toks.append("%d:%d,%d,%d,%d,%d" % (mode, n, i, v, t, p))
+    return chn, rows, "XME " + " ".join(toks)
+
+def mutate_blob(rng, blob, allow_len=True):
+    b = bytearray(blob); k = rng.random()
+    if not b: return bytes(rng.randrange(256) for _ in range(rng.randrange(1, 9)))
+    if k < 0.45:
+        for _ in range(rng.choice((1, 1, 2, 4))): b[rng.randrange(len(b))] = rng.choice((0, 0x80, 0xff, 0x7f, rng.randrange(256)))
+    elif k < 0.7 and allow_len: del b[rng.randrange(len(b)):]
+    elif k < 0.85 and allow_len: b += bytes(rng.randrange(256) for _ in range(rng.randrange(1, 6)))
+    else:
+        i = rng.randrange(len(b)); b[i:i] = bytes([rng.randrange(256)])
+    return bytes(b)
+
+def gen_s3m_rows(rng, chn):
+    rows = []
+    for r in range(64):
+        ents = []
+        for c in range(32):
+            if rng.random() < (0.25 if c < chn else 0.02):
+                hni, hv, hf = rng.random() < 0.6, rng.random() < 0.4, rng.random() < 0.5
+                if not (hni or hv or hf): hni = True
+                n = rng.choice((255, 254, rng.randrange(256), (rng.randrange(8) << 4) | rng.randrange(12)))
+                ents.append((c, hni, n, rng.choice((0, 1, 2, 99, 255)), hv, rng.choice((0, 32, 64, 65, 254, 255)), hf, _rb(rng, ((0, 0), (1, 26), (19, 19), (19, 19), (20, 20), (24, 24), (27, 255))), _rb(rng, FXP_ANY + ((0xa4, 0xa4), (0x10, 0x2f), (0x80, 0xcf)))))
+        if rng.random() < 0.1 and ents: ents.append(ents[0][:1] + (False, 0, 0, True, rng.randrange(256), False, 0, 0))      # the same channel twice in a row
+        rows.append(ents)
+    return rows
+
+def gen_it_rows(rng, rows, maxc):
+    out = []
+    for r in range(rows):
+        ents = []
+        for c in sorted(rng.sample(range(64), rng.choice((0, 0, 1, 2, 4)))):
+            if c > maxc and rng.random() < 0.9: continue
+            hn, hi, hv, hf = (rng.random() < 0.5 for _ in range(4))
+            n = rng.choice((rng.randrange(120), rng.randrange(120), 255, 254, 120, 200, 253))
+            v = _rb(rng, ((0, 64), (65, 124), (125, 127), (128, 192), (193, 212), (213, 255)))
+            t = _rb(rng, ((0, 0), (1, 26), (19, 19), (19, 19), (9, 9), (22, 22), (27, 31)))
+            ents.append((c, hn, n, hi, rng.choice((0, 1, 2, 99, 255)), hv, v, hf, t, _rb(rng, FXP_ANY + ((0x81, 0x81), (0x10, 0xff)))))
+        if ents and rng.random() < 0.1: e = ents[0]; ents.append((e[0], False, 0, False, 0, True, rng.randrange(256), rng.random() < 0.5, 19, 0))
+        out.append(ents)
+    return out
+
+def it_smart_blob(rng, rows, maxc):
+    """an IT pattern the way real trackers pack it: the mask byte is omitted when it repeats, and a field equal to the channel's
+    previous value is replaced by its 'same as last' bit (untrusted generator: the model decodes whatever it produces)"""
+    out = bytearray(); lastmask = {}; last = {}
+    notes = [rng.randrange(120) for _ in range(3)] + [255, 254, 130]; inss = [0, 1, 2, 99]; vols = [rng.randrange(256) for _ in range(3)] + [64, 65, 67, 128, 192, 200, 213]
+    fxs = [(rng.randrange(1, 32), rng.randrange(256)) for _ in range(3)] + [(19, 0), (19, 0x61), (19, 0xd0), (9, 0x23), (22, 0x81), (33, 1)]
+    for r in range(rows):
+        for c in sorted(rng.sample(range(maxc + 1), min(maxc + 1, rng.choice((0, 1, 1, 2, 3))))):
+            mask = 0; body = bytearray(); l = last.setdefault(c, {})
+            for k, (bitl, pool) in enumerate(((1, notes), (2, inss), (4, vols), (8, fxs))):
+                if rng.random() < 0.55:
+                    v = rng.choice(pool)
+                    if l.get(k) == v and rng.random() < 0.75: mask |= bitl << 4
+                    elif k in l and rng.random() < 0.08: mask |= bitl << 4          # reuse whatever the last value was
+                    else:
+                        mask |= bitl; l[k] = v; body += bytes(v) if k == 3 else bytes([v])
+            if rng.random() < 0.03: mask |= rng.choice((0x10, 0x20, 0x40, 0x80))    # 'same as last' before any value was stored
+            if mask == 0: continue
+            if lastmask.get(c) == mask and rng.random() < 0.8: out.append(c + 1)
+            else: out += bytes([(c + 1) | 0x80, mask]); lastmask[c] = mask
+            out += body
+        out.append(0)
+    return bytes(out)
+
+def parse_events(tokens):
+    d = {}
+    for t in tokens:
+        k, f = t.split(":"); d[int(k)] = tuple(int(x) for x in f.split(","))
+    return d
+
+def patcodec_leg(ck, tier, rng, drv, tmpd, env, stats, rp):
+    model = V.ocaml_build("patcodecs")
+    n = {"quick": 90, "thorough": 2500}[tier]
+    cases = []          # (fmt, chn, rows, blob, kind, extra)
+    if rp:
+        c = rp["case"]; cases = [(c["fmt"], c["chn"], c["rows"], bytes.fromhex(c["blob"]), c["kind"], c.get("extra", {}))]
+    else:
+        # -- encoder inputs first (one model call), then mutants and random blobs
+        enc_req = []; meta = []
+        for k in range(n):
+            chn, rows, line = gen_xm_case(rng); enc_req.append(line); meta.append(("xm", chn, rows, {}))
+        for k in range(n):
+            chn = rng.choice((1, 2, 4, 8))
+            rows_e = gen_s3m_rows(rng, chn)
+            enc_req.append("S3E %d " % chn + " | ".join(" ".join("%d,%d,%d,%d,%d,%d,%d,%d,%d" % tuple(int(x) for x in e) for e in row) for row in rows_e)); meta.append(("s3m", chn, 64, {}))
+        for k in range(n):
+            rows = rng.choice((1, 5, 32, 64, 200)); nf = rng.random() < 0.7
+            rows_e = gen_it_rows(rng, rows, rng.choice((0, 3, 7, 31, 63)))
+            enc_req.append("ITE %d " % nf + " | ".join(" ".join("%d,%d,%d,%d,%d,%d,%d,%d,%d,%d" % tuple(int(x) for x in e) for e in row) for row in rows_e)); meta.append(("it", None, rows, {"newfx": nf}))
+        out = V.run([model], inp="\n".join(enc_req) + "\n", timeout=3000).stdout.split("\n")
+        for (fmt, chn, rows, extra), line in zip(meta, out):
+            w = line.split()
+            if len(w) < 3 or w[0] != "ENC": raise V.BuildError("pattern writer: unexpected model output %r" % line[:200])
+            if w[1] != "1": raise V.BuildError("the generator produced cells outside the writer's domain (okb = 0)")
+            blob = bytes.fromhex(w[2]) if w[2] != "REF" else b""
+            ex = dict(extra)
+            if "REF" in w: ex["ref"] = w[w.index("REF") + 1:]
+            cases.append((fmt, chn, rows, blob, "writer", ex))
+            r = rng.random()
+            if r < 0.6:
+                ex2 = {k: v for k, v in extra.items()}
+                cases.append((fmt, chn, rows, mutate_blob(rng, blob), "mutant", ex2))
+        for k in range(n):
+            rows = rng.choice((2, 8, 64, 200)); blob = it_smart_blob(rng, rows, rng.choice((0, 1, 3, 15, 63)))
+            cases.append(("it", None, rows, blob, "packed", {"newfx": rng.random() < 0.7}))
+            if rng.random() < 0.3: cases.append(("it", None, rows, mutate_blob(rng, blob), "mutant", {"newfx": rng.random() < 0.7}))
+        for k in range(n // 2):
+            fmt = ("xm", "s3m", "it")[k % 3]
+            ln = rng.choice((0, 1, 2, 3, 9, 40, 300, 2000))
+            pool = rng.choice((None, (0, 0x80, 0x81, 0x83, 0x9f, 0xff, 1, 0x20, 0x40), tuple(range(0, 16))))
+            blob = bytes((rng.choice(pool) if pool and rng.random() < 0.7 else rng.randrange(256)) for _ in range(ln))
+            chn = rng.choice((1, 4, 8)); rows = rng.choice((1, 4, 64))
+            cases.append((fmt, chn, 64 if fmt == "s3m" else rows, blob, "random", {"newfx": rng.random() < 0.5} if fmt == "it" else {}))
+    # -- the model's decoding of every blob
+    req = []
+    for (fmt, chn, rows, blob, kind, ex) in cases:
+        hx = blob.hex() or "-"
+        if fmt == "xm": req.append("XMD %d %d %s" % (rows, chn, hx))
+        elif fmt == "s3m": req.append("S3D %d %d %s" % (chn, len(blob) + 2 - 2 if "declared" not in ex else ex["declared"] - 2, hx))
+        else: req.append("ITD %d %d %s" % (1 if ex.get("newfx") else 0, rows, hx))
+    mout = V.run([model], inp="\n".join(req) + "\n", timeout=3000).stdout.split("\n")
+    # -- the files and libxmp's loads
+    paths = []
+    for k, (fmt, chn, rows, blob, kind, ex) in enumerate(cases):
+        song = dict(chn=chn or 4, orders=[0], name="gen", patterns=[])
+        if fmt == "xm": song["raw_patterns"] = [(rows, len(blob), blob)]
+        elif fmt == "s3m": song["raw_pattern"] = (ex.get("declared", (len(blob) + 2) & 0xffff), blob)
+        else: song["raw_patterns"] = [(rows, blob)]; song["it_old_fx"] = not ex.get("newfx"); song["chn"] = 64
+        pth = os.path.join(tmpd, "p%05d.%s" % (k, fmt)); open(pth, "wb").write(modgen.WRITERS[fmt](song)); paths.append(pth)
+    r = V.run([drv], inp="\n".join(paths) + "\n", env=env, timeout=3000)
+    blocks = []; cur = []
+    for l in r.stdout.split("\n"):
+        cur.append(l)
+        if l == "ENDLOAD" or l.startswith("LOADFAIL"): blocks.append("\n".join(cur)); cur = []
+    st = stats.setdefault("patcodecs", {})
+    for k, (fmt, chn, rows, blob, kind, ex) in enumerate(cases):
+        if k >= len(blocks): break
+        ck.count(); key = "%s_%s" % (fmt, kind); st[key] = st.get(key, 0) + 1
+        d = parse_load(blocks[k]); mo = mout[k].split()
+        bad = None
+        if not mo or mo[0] == "?": raise V.BuildError("pattern model: no answer for case %d" % k)
+        if mo[0] == "FAIL":
+            st["model_rejects"] = st.get("model_rejects", 0) + 1
+            if "fail" not in d: bad = "the model's decoder rejects the pattern data (the loader's error path) but libxmp loaded the module"
+        elif "fail" in d:
+            bad = "libxmp failed the load (%d) but the model's decoder accepts the pattern data" % d["fail"]
+        else:
+            if fmt == "xm": width = chn; evs = parse_events(mo[1:])
+            elif fmt == "s3m": width = chn; evs = parse_events(mo[2:])
+            else: width = int(mo[1]) + 1; evs = parse_events(mo[2:])
+            m = d["m"]
+            if m[0] != width: bad = "channels %d, model %d" % (m[0], width)
+            elif d["patr"].get(0) != rows: bad = "pattern rows %s, written %d" % (d["patr"].get(0), rows)
+            else:
+                got = {(rr * width + c): e for (p_, rr, c), e in d["ev"].items() if p_ == 0}
+                if got != evs:
+                    ks = sorted(set(got) | set(evs)); kk = [x for x in ks if got.get(x) != evs.get(x)][0]
+                    bad = "row %d channel %d: libxmp event %s, model %s (note ins vol fxt fxp f2t f2p)" % (kk // width, kk % width, got.get(kk, (0,) * 7), evs.get(kk, (0,) * 7))
+                st["events_compared"] = st.get("events_compared", 0) + len(evs)
+            if not bad and kind == "writer" and "ref" in ex and fmt in ("s3m", "it"):
+                # the meaning of the written entries (the round-trip theorem's right-hand side) evaluated by the extracted code
+                ref = parse_events(ex["ref"])
+                if fmt == "it": ref = {(x // 64) * width + (x % 64): e for x, e in ref.items() if x % 64 < width}
+                if ref != evs: raise V.BuildError("extracted decode(encode rows) differs from the reference meaning of the rows (%s case %d): the round-trip theorem's statement would be false" % (fmt, k))
+        if bad:
+            ck.violation({"engine": "patcodecs", "case": {"fmt": fmt, "chn": chn, "rows": rows, "blob": blob.hex(), "kind": kind, "extra": {kk: vv for kk, vv in ex.items() if kk != "ref"}}, "what": bad,
+                          "broken": "correspondence: Model/PatCodecs.v (%s pattern decoding) vs the loaded module" % fmt}, key="c19:pat:%s:%s" % (fmt, bad.split(":")[0][:40]))
+        else:
+            ck.nontrivial(("pat", fmt, blob))
+    if r.returncode != 0:
+        ck.violation({"engine": "patcodecs", "broken": "sanitizer report / crash while loading a file with generated pattern data", "stderr": r.stderr[-2000:]}, key="c19-pat-crash")
+
 def main():
     tier = sys.argv[1] if len(sys.argv) > 1 else "quick"
     replay = sys.argv[sys.argv.index("--replay") + 1] if "--replay" in sys.argv else None
     ck = V.Check("C19", tier)
     rng = ck.rng
-    ck.proof_leg(["Extract/Extract_modcodec.vo"])
+    ck.proof_leg(["Extract/Extract_modcodec.vo", "Extract/Extract_patcodecs.vo"])
     drv = V.build_driver("c19_drv", ["c19_drv.c"])
     model = V.ocaml_build("modcodec")
     env = V.san_env()
@@ -273,6 +475,9 @@ def main():
                     ck.nontrivial((fmt, json.dumps(s, sort_keys=True)))
             if r.returncode != 0:
                 ck.violation({"engine": "writers", "broken": "sanitizer report / crash while loading a written file", "stderr": r.stderr[-2000:]}, key="c19-crash")
+        # ---- (d) packed pattern data
+        if not rp or rp.get("engine") == "patcodecs":
+            patcodec_leg(ck, tier, rng, drv, tmpd, env, stats, rp if rp and rp.get("engine") == "patcodecs" else None)
         # ---- (c) the corpus's IT files: every sample's PCM as an independent reader of the IT sample formats (incl. IT 2.14 / 2.15
         #          compression, gen/itdecomp.py) predicts it vs what libxmp loaded
         if not rp or rp.get("engine") == "itsamples":
